@@ -59,6 +59,10 @@ Proof.
 Qed.
 
 Section Proofs.
+(* the compare-and-swap shape of the two database calls (Gen/CronCfg.v): a writer that lost the race reports 0 *)
+Variable drc urm : bool.
+Hypothesis Hdrc : drc = true.
+Hypothesis Hurm : urm = true.
 Variable byname : bool.
 Variable keys : list nat.
 Variable nxt : nat -> N -> N.
@@ -68,12 +72,18 @@ Variable db0 : nat -> option trig.
 Hypothesis Hcov : covers keys db0.
 Hypothesis Hun : byname = true -> unamb db0.
 
+Notation stp := (step byname drc urm keys nxt).
+Notation rn := (run byname drc urm keys nxt).
+
 Definition static_of (k : nat) (t : trig) : Prop := exists d0, db0 k = Some d0 /\ same_static t d0.
 
 Record Inv (s : state) : Prop := mkInv {
   inv_static : forall k d, db s k = Some d -> static_of k d;
   inv_snap : forall i k sn, snap s i k = Some sn ->
      static_of k sn /\ (forall d, db s k = Some d -> fos sn d) /\ t_next sn < now s + 2;
+  inv_sel : forall i k sn k' nv, sel s i = Some (k, sn, k', nv) ->
+     pend s i = None /\ k' = k /\ static_of k sn /\ (forall d, db s k = Some d -> fos sn d) /\ t_next sn < now s + 2 /\
+     exists nw, nw <= now s /\ nv = nxt k (N.max nw (t_next sn));
   inv_pend : forall i k sn, pend s i = Some (k, sn) ->
      static_of k sn /\ In (k, t_next sn) (won s) /\ ~ In (k, t_next sn) (done s) /\ t_next sn < now s + 2;
   inv_pend_distinct : forall i j k sn k' sn', i <> j -> pend s i = Some (k, sn) -> pend s j = Some (k', sn') ->
@@ -96,8 +106,8 @@ Record Inv (s : state) : Prop := mkInv {
      (forall n, In (k, n) (won s) -> n = t_next d0)
 }.
 
-Lemma Hnxt_max : forall k (s : state) (d : trig), t_next d < nxt k (N.max (now s) (t_next d)).
-Proof. intros. pose proof (Hnxt k (N.max (now s) (t_next d))). lia. Qed.
+Lemma Hnxt_max : forall k (nw : N) (d : trig), t_next d < nxt k (N.max nw (t_next d)).
+Proof. intros. pose proof (Hnxt k (N.max nw (t_next d))). lia. Qed.
 
 Lemma inv_init : Inv (init t0 db0).
 Proof.
@@ -140,13 +150,15 @@ Proof.
     assert (k' = k) by eauto. subst. congruence.
 Qed.
 
-(* what a win needs *)
-Definition win_ok (s : state) (i k : nat) (sn d : trig) (v : option trig) : Prop :=
-  pend s i = None /\ snap s i k = Some sn /\ db s k = Some d /\ t_next d = t_next sn /\ t_rem d = t_rem sn /\
+(* what a winning write needs: the processor is inside the call for its snapshot sn of row k, the row still
+   carries the values of the snapshot *)
+Definition win_ok (s : state) (i k : nat) (sn : trig) (nv : N) (d : trig) (v : option trig) : Prop :=
+  sel s i = Some (k, sn, k, nv) /\ pend s i = None /\ static_of k sn /\ t_next sn < now s + 2 /\
+  db s k = Some d /\ t_next d = t_next sn /\ t_rem d = t_rem sn /\
+  (exists nw, nw <= now s /\ nv = nxt k (N.max nw (t_next d))) /\
   match v with
   | None => is_zero (dec (t_rem d)) = true
-  | Some d' => is_zero (dec (t_rem d)) = false /\
-               d' = set_dyn d (nxt k (N.max (now s) (t_next d))) (dec (t_rem d))
+  | Some d' => is_zero (dec (t_rem d)) = false /\ d' = set_dyn d nv (dec (t_rem d))
   end.
 
 Lemma fos_same_next : forall sn d, fos sn d -> t_next d = t_next sn -> t_rem sn = t_rem d.
@@ -177,30 +189,49 @@ Proof.
   apply dec_zero_some in Z. lia.
 Qed.
 
-Lemma adv_cases : forall s i k, Inv s ->
-  adv byname keys nxt s i k = s \/
-  (exists sn, pend s i = None /\ snap s i k = Some sn /\ adv byname keys nxt s i k = lose s i k) \/
-  (exists sn d v, win_ok s i k sn d v /\ adv byname keys nxt s i k = win s i k sn k d v).
+(* the SELECT half: nothing, or the snapshot is consumed and either lost (row gone) or the call is entered *)
+Definition entered (s : state) (i k : nat) (sn : trig) : state :=
+  mkS (now s) (db s) (clear_snap s i k) (upd (sel s) i (Some (k, sn, k, nxt k (N.max (now s) (t_next sn)))))
+      (pend s) (starts s) (won s) (lost s).
+
+Lemma select_cases : forall s i k, Inv s ->
+  select byname keys nxt s i k = s \/
+  (exists sn, pend s i = None /\ sel s i = None /\ snap s i k = Some sn /\
+     (select byname keys nxt s i k = lose s i k \/ select byname keys nxt s i k = entered s i k sn)).
 Proof.
-  intros s i k HI. unfold adv.
+  intros s i k HI. unfold select.
   destruct (pend s i) eqn:Hp; auto.
+  destruct (sel s i) eqn:Hse; auto.
   destruct (snap s i k) as [sn|] eqn:Hs; auto.
-  right. rewrite (resolve_spec s i k sn HI Hs).
-  destruct (inv_snap s HI _ _ _ Hs) as [[d0 [Hd0 Hst]] [Hf _]].
-  cbv zeta.
-  destruct (db s k) as [d|] eqn:Hk; [|left; eauto].
+  right. exists sn. repeat split; auto.
+  rewrite (resolve_spec s i k sn HI Hs).
+  destruct (inv_snap s HI _ _ _ Hs) as [[d0 [Hd0 Hst]] _].
+  destruct (db s k) as [d|] eqn:Hk; [|left; reflexivity].
   cbv beta iota. rewrite Hk.
-  specialize (Hf d eq_refl).
   destruct (inv_static s HI _ _ Hk) as [d0' [Hd0' Hst']]. rewrite Hd0 in Hd0'. inversion Hd0'. subst d0'.
-  destruct (is_zero (dec (t_rem sn))) eqn:Z.
-  - destruct (fos_last _ _ Hf Z) as [E1 E2].
-    assert (t_proj d = t_proj sn) as E by (unfold same_static in *; intuition congruence).
-    rewrite E, Nat.eqb_refl. right. exists sn, d, None. split; auto.
-    unfold win_ok. rewrite E2 in Z. repeat split; auto.
-  - destruct (N.eqb_spec (t_next d) (t_next sn)) as [E|E]; [|left; eauto].
-    right. pose proof (fos_same_next _ _ Hf E) as E2.
-    eexists sn, d, (Some _). split; [|reflexivity].
-    unfold win_ok. rewrite E2 in Z. rewrite E2, <- E. repeat split; auto.
+  assert (t_proj d = t_proj sn) as E by (unfold same_static in *; intuition congruence).
+  rewrite E, Nat.eqb_refl. cbn [negb]. rewrite andb_false_r. right. reflexivity.
+Qed.
+
+(* the DELETE / UPDATE half *)
+Lemma write_cases : forall s i, Inv s ->
+  write drc urm s i = s \/
+  (exists e, sel s i = Some e /\ write drc urm s i = wr_lose s i) \/
+  (exists k sn nv d v, win_ok s i k sn nv d v /\ write drc urm s i = wr_win s i k sn k d v).
+Proof.
+  intros s i HI. unfold write.
+  destruct (sel s i) as [[[[k sn] k'] nv]|] eqn:Hs; auto.
+  right. destruct (inv_sel s HI _ _ _ _ _ Hs) as (Hp & -> & Hst & Hf & Hdue & nw & Hnw & Hnv).
+  cbv zeta. rewrite Hdrc, Hurm.
+  destruct (db s k) as [d|] eqn:Hk.
+  - specialize (Hf d eq_refl). destruct (is_zero (dec (t_rem sn))) eqn:Z.
+    + destruct (fos_last _ _ Hf Z) as [E1 E2]. right. exists k, sn, nv, d, None. split; [|reflexivity].
+      unfold win_ok. rewrite E2 in Z. rewrite E1 in Hnv. repeat split; auto. exists nw. auto.
+    + destruct (N.eqb_spec (t_next d) (t_next sn)) as [E|E]; [|left; eauto].
+      right. pose proof (fos_same_next _ _ Hf E) as E2.
+      exists k, sn, nv, d, (Some (set_dyn d nv (dec (t_rem sn)))). split; [|reflexivity].
+      unfold win_ok. rewrite E2 in Z. rewrite E2. rewrite <- E in Hnv. repeat split; auto. exists nw. auto.
+  - left. destruct (is_zero (dec (t_rem sn))); eauto.
 Qed.
 
 Ltac upd_cases :=
@@ -213,8 +244,30 @@ Ltac upd_cases :=
 
 Lemma lose_inv : forall s i k, Inv s -> Inv (lose s i k).
 Proof.
-  intros s i k HI. destruct HI. constructor; unfold lose, done in *; simpl; auto.
+  intros s i k HI. destruct HI. constructor; unfold lose, clear_snap, done in *; simpl; auto.
   intros j k2 sn H. upd_cases; try discriminate; eauto.
+Qed.
+
+Lemma entered_inv : forall s i k sn, Inv s -> pend s i = None -> snap s i k = Some sn -> Inv (entered s i k sn).
+Proof.
+  intros s i k sn HI Hp Hs. destruct (inv_snap s HI _ _ _ Hs) as (Hst & Hf & Hdue).
+  destruct HI. constructor; unfold entered, clear_snap, done in *; simpl; auto.
+  - intros j k2 sn2 H. upd_cases; try discriminate; eauto.
+  - intros j k2 sn2 k2' nv2 H. upd_cases; [|eauto].
+    inversion H. subst k2 sn2 k2' nv2. repeat split; auto. exists (now s). split; [lia|reflexivity].
+Qed.
+
+Lemma select_inv : forall s i k, Inv s -> Inv (select byname keys nxt s i k).
+Proof.
+  intros s i k HI. destruct (select_cases s i k HI) as [E|(sn & Hp & _ & Hs & [E|E])]; rewrite E; auto.
+  - apply lose_inv; auto.
+  - apply entered_inv; auto.
+Qed.
+
+Lemma wr_lose_inv : forall s i, Inv s -> Inv (wr_lose s i).
+Proof.
+  intros s i HI. destruct HI. constructor; unfold wr_lose, done in *; simpl; auto.
+  intros j k2 sn2 k2' nv2 H. upd_cases; [discriminate|eauto].
 Qed.
 
 Lemma in_done_cons_start : forall e s x,
@@ -245,15 +298,21 @@ Proof.
     destruct (dec_nonzero_some y Z) as [[A B]|[A B]]; rewrite B; lia.
 Qed.
 
-Lemma win_inv : forall s i k sn d v, Inv s -> win_ok s i k sn d v -> Inv (win s i k sn k d v).
+Lemma win_inv : forall s i k sn nv d v, Inv s -> win_ok s i k sn nv d v -> Inv (wr_win s i k sn k d v).
 Proof.
-  intros s i k sn d v HI (Hp & Hs & Hk & En & Er & Hv).
+  intros s i k sn nv d v HI (Hse & Hp & Hst & Hdue & Hk & En & Er & (nw & Hnw & Hnv) & Hv).
+  assert (Hlt : t_next d < nv) by (rewrite Hnv; apply Hnxt_max).
   assert (Hfresh : ~ In (k, t_next d) (won s)).
   { intro H. pose proof (inv_won_lt s HI _ _ _ H Hk). lia. }
   assert (Hfresh' : ~ In (k, t_next d) (done s)).
   { intro H. apply Hfresh. apply (inv_done_won s HI). exact H. }
-  destruct (inv_snap s HI _ _ _ Hs) as [Hst [_ Hdue]].
-  constructor; unfold win; simpl.
+  (* rows seen through older copies stay "fresh or stale" *)
+  assert (Hfos : forall k2 x, (forall d2, db s k2 = Some d2 -> fos x d2) ->
+                 forall d2, upd (db s) k v k2 = Some d2 -> fos x d2).
+  { intros k2 x B d2 H2. upd_cases; [|auto].
+    destruct v as [d'|]; [|discriminate]. destruct Hv as [Z Hv]. inversion H2. subst d2 d'.
+    apply stale_after_update; auto. }
+  constructor; unfold wr_win; simpl.
   - (* static *)
     intros k2 d2 H. upd_cases.
     + destruct v as [d'|]; [|discriminate]. destruct Hv as [_ Hv]. inversion H. subst d2 d'.
@@ -262,15 +321,14 @@ Proof.
     + eapply inv_static; eauto.
   - (* snapshots *)
     intros j k2 sn2 H.
-    assert (Hsn2 : snap s j k2 = Some sn2).
-    { upd_cases; try discriminate; auto. }
-    clear H.
-    destruct (inv_snap s HI _ _ _ Hsn2) as [A [B C]].
-    split; [exact A|]. split; [|exact C].
-    intros d2 H2. upd_cases.
-    + destruct v as [d'|]; [|discriminate]. destruct Hv as [Z Hv]. inversion H2. subst d2 d'.
-      apply stale_after_update; auto. apply Hnxt_max.
-    + auto.
+    destruct (inv_snap s HI _ _ _ H) as [A [B C]].
+    split; [exact A|]. split; [|exact C]. apply Hfos. exact B.
+  - (* calls in progress of the other processors *)
+    intros j k2 sn2 k2' nv2 H.
+    destruct (Nat.eq_dec j i) as [->|Hne]; [rewrite upd_eq in H; discriminate|].
+    rewrite upd_neq in H by assumption. rewrite upd_neq by assumption.
+    destruct (inv_sel s HI _ _ _ _ _ H) as (A & B & C & D & F & G).
+    split; [exact A|]. split; [exact B|]. split; [exact C|]. split; [apply Hfos; exact D|]. split; [exact F|exact G].
   - (* pending *)
     intros j k2 sn2 H. upd_cases.
     + inversion H. subst k2 sn2. rewrite <- En. unfold done in *. simpl. repeat split; auto; lia.
@@ -288,10 +346,10 @@ Proof.
     intros k2 n d2 [H|H] H2.
     + inversion H. subst k2 n. rewrite upd_eq in H2.
       destruct v as [d'|]; [|discriminate]. destruct Hv as [_ Hv]. inversion H2. subst d2 d'.
-      unfold set_dyn. simpl. apply Hnxt_max.
+      unfold set_dyn. simpl. exact Hlt.
     + upd_cases.
       * destruct v as [d'|]; [|discriminate]. destruct Hv as [_ Hv]. inversion H2. subst d2 d'.
-        pose proof (inv_won_lt s HI _ _ _ H Hk). unfold set_dyn. simpl. pose proof (Hnxt_max k s d). lia.
+        pose proof (inv_won_lt s HI _ _ _ H Hk). unfold set_dyn. simpl. lia.
       * eapply inv_won_lt; eauto.
   - apply (inv_done_nodup s HI).
   - intros x H. right. apply (inv_done_won s HI). exact H.
@@ -322,15 +380,24 @@ Proof.
     + intros n [H|H]; [|auto]. inversion H. subst. destruct (A _ Hk). auto.
 Qed.
 
-Lemma tick_inv : forall s d, Inv s -> Inv (step byname keys nxt s (Tick d)).
+Lemma write_inv : forall s i, Inv s -> Inv (write drc urm s i).
+Proof.
+  intros s i HI. destruct (write_cases s i HI) as [E|[(e & _ & E)|(k & sn & nv & d & v & W & E)]]; rewrite E; auto.
+  - apply wr_lose_inv; auto.
+  - eapply win_inv; eauto.
+Qed.
+
+Lemma tick_inv : forall s d, Inv s -> Inv (stp s (Tick d)).
 Proof.
   intros s d HI. constructor; simpl; try apply HI.
   - intros i k sn H. destruct (inv_snap s HI _ _ _ H) as (A & B & C). repeat split; auto. lia.
+  - intros i k sn k' nv H. destruct (inv_sel s HI _ _ _ _ _ H) as (A & B & C & D & F & nw & G1 & G2).
+    repeat split; auto; [lia|]. exists nw. split; [lia|exact G2].
   - intros i k sn H. destruct (inv_pend s HI _ _ _ H) as (A & B & C & D). repeat split; auto. lia.
   - intros e H. destruct (inv_starts s HI _ H) as (d0 & A & B & C & D). exists d0. repeat split; auto. lia.
 Qed.
 
-Lemma read_inv : forall s i, Inv s -> Inv (step byname keys nxt s (Read i)).
+Lemma read_inv : forall s i, Inv s -> Inv (stp s (Read i)).
 Proof.
   intros s i HI. constructor; simpl; try apply HI.
   intros j k sn H. upd_cases; [|eapply inv_snap; eauto].
@@ -346,10 +413,11 @@ Lemma finish_inv : forall s i k sn st' lo',
   Inv s -> pend s i = Some (k, sn) ->
   (st' = mkEv i k (t_next sn) (t_payload sn) (t_proj sn) :: starts s /\ lo' = lost s) \/
   (st' = starts s /\ lo' = (k, t_next sn) :: lost s) ->
-  forall sp, (forall j k2 x, sp j k2 = Some x -> snap s j k2 = Some x) ->
-  Inv (mkS (now s) (db s) sp (upd (pend s) i None) st' (won s) lo').
+  forall sp se, (forall j k2 x, sp j k2 = Some x -> snap s j k2 = Some x) ->
+  (forall j x, se j = Some x -> sel s j = Some x) ->
+  Inv (mkS (now s) (db s) sp se (upd (pend s) i None) st' (won s) lo').
 Proof.
-  intros s i k sn st' lo' HI Hp Hcase sp Hsp.
+  intros s i k sn st' lo' HI Hp Hcase sp se Hsp Hse.
   destruct (inv_pend s HI _ _ _ Hp) as (Hst & Hw & Hnd & Hdue).
   assert (Hin : forall x, In x (map occ_of st' ++ lo') <-> x = (k, t_next sn) \/ In x (done s)).
   { intros x. destruct Hcase as [[-> ->]|[-> ->]].
@@ -357,6 +425,9 @@ Proof.
     - rewrite in_done_cons_lost. reflexivity. }
   constructor; unfold done in *; simpl; try apply HI.
   - intros j k2 x H. apply Hsp in H. eapply inv_snap; eauto.
+  - intros j k2 sn2 k2' nv2 H. apply Hse in H.
+    destruct (inv_sel s HI _ _ _ _ _ H) as (A & B & C & D & F & G). repeat split; auto.
+    destruct (Nat.eq_dec j i) as [->|Hne]; [apply upd_eq|]. rewrite upd_neq by assumption. exact A.
   - intros j k2 sn2 H. upd_cases; [discriminate|].
     destruct (inv_pend s HI _ _ _ H) as (A & B & C & D). repeat split; auto.
     rewrite Hin. intros [X|X]; [|auto].
@@ -377,33 +448,37 @@ Proof.
     destruct Hst as (d0 & A & B). exists d0. unfold same_static in B. intuition.
 Qed.
 
-Lemma step_inv : forall s o, Inv s -> Inv (step byname keys nxt s o).
+Lemma step_inv : forall s o, Inv s -> Inv (stp s o).
 Proof.
-  intros s o HI. destruct o as [d|i|i k|i|i|i].
+  intros s o HI. destruct o as [d|i|i k|i k|i|i|i|i].
   - apply tick_inv; auto.
   - apply read_inv; auto.
-  - simpl. destruct (adv_cases s i k HI) as [E|[(sn & _ & _ & E)|(sn & d & v & W & E)]]; rewrite E; auto.
-    + apply lose_inv; auto.
-    + apply win_inv; auto.
+  - simpl. unfold adv. destruct (sel s i); auto. apply write_inv. apply select_inv. exact HI.
+  - apply select_inv; auto.
+  - apply write_inv; auto.
   - simpl. destruct (pend s i) as [[k sn]|] eqn:Hp; auto.
     apply finish_inv with (k := k) (sn := sn); auto.
   - simpl. destruct (pend s i) as [[k sn]|] eqn:Hp; auto.
     apply finish_inv with (k := k) (sn := sn); auto.
   - simpl. destruct (pend s i) as [[k sn]|] eqn:Hp.
-    + apply finish_inv with (k := k) (sn := sn); auto. intros j k2 x H. upd_cases; [discriminate|auto].
-    + assert (E : upd (pend s) i None = pend s -> True) by auto.
-      destruct HI. constructor; unfold done in *; simpl; auto.
+    + apply finish_inv with (k := k) (sn := sn); auto.
+      * intros j k2 x H. upd_cases; [discriminate|auto].
+      * intros j x H. upd_cases; [discriminate|auto].
+    + destruct HI. constructor; unfold done in *; simpl; auto.
       * intros j k2 x H. upd_cases; [discriminate|eauto].
+      * intros j k2 sn2 k2' nv2 H.
+        destruct (Nat.eq_dec j i) as [->|Hne]; [rewrite upd_eq in H; discriminate|].
+        rewrite upd_neq in H by assumption. rewrite upd_neq by assumption. eauto.
       * intros j k2 sn2 H. upd_cases; [discriminate|eauto].
       * intros j1 j2 k1 sn1 k2 sn2 Hne H1 H2. upd_cases; try discriminate. eauto.
       * intros k2 n H. destruct (inv_acct0 _ _ H) as [A|(j & sn2 & A & B)]; [auto|].
         right. exists j, sn2. rewrite upd_neq; auto. intro. subst. congruence.
 Qed.
 
-Lemma run_inv : forall ops s, Inv s -> Inv (run byname keys nxt s ops).
+Lemma run_inv : forall ops s, Inv s -> Inv (rn s ops).
 Proof. induction ops as [|o ops IH]; intros s HI; simpl; auto. apply IH. apply step_inv. exact HI. Qed.
 
-Definition reach (ops : list op) : state := run byname keys nxt (init t0 db0) ops.
+Definition reach (ops : list op) : state := rn (init t0 db0) ops.
 
 Lemma reach_inv : forall ops, Inv (reach ops).
 Proof. intros. apply run_inv. apply inv_init. Qed.
@@ -431,18 +506,34 @@ Qed.
 
 Definition no_loss_op (o : op) : Prop := match o with Drop _ | Crash _ => False | _ => True end.
 
-Lemma step_lost : forall s o, no_loss_op o -> lost (step byname keys nxt s o) = lost s.
+(* the SELECT half touches nothing but the processor's own snapshot / call slot *)
+Lemma select_frame : forall s i k,
+  now (select byname keys nxt s i k) = now s /\ db (select byname keys nxt s i k) = db s /\
+  won (select byname keys nxt s i k) = won s /\ lost (select byname keys nxt s i k) = lost s.
 Proof.
-  intros s o H. destruct o; simpl in *; try contradiction; auto.
-  - unfold adv, lose, win.
-    repeat match goal with |- context [match ?x with _ => _ end] => destruct x end; reflexivity.
+  intros. unfold select, lose.
+  repeat match goal with |- context [match ?x with _ => _ end] => destruct x end; simpl; auto.
+Qed.
+
+Lemma write_lost : forall s i, lost (write drc urm s i) = lost s.
+Proof.
+  intros. unfold write, wr_lose, wr_win, wr_phantom.
+  repeat match goal with |- context [match ?x with _ => _ end] => destruct x end; reflexivity.
+Qed.
+
+Lemma step_lost : forall s o, no_loss_op o -> lost (stp s o) = lost s.
+Proof.
+  intros s o H. destruct o; simpl in H |- *; try contradiction; auto.
+  - unfold adv. destruct (sel s i); auto. rewrite write_lost. apply select_frame.
+  - apply select_frame.
+  - apply write_lost.
   - destruct (pend s i) as [[? ?]|]; reflexivity.
 Qed.
 
-Lemma run_lost : forall ops s, Forall no_loss_op ops -> lost (run byname keys nxt s ops) = lost s.
+Lemma run_lost : forall ops s, Forall no_loss_op ops -> lost (rn s ops) = lost s.
 Proof.
   induction ops as [|o ops IH]; intros s H; simpl; auto.
-  inversion H. subst. rewrite IH by assumption. apply step_lost. assumption.
+  inversion H as [|o' ops' Ho Hr]. rewrite IH by assumption. apply step_lost. assumption.
 Qed.
 
 Lemma exactly_once_unless_crash : forall ops k n, Forall no_loss_op ops -> In (k, n) (won (reach ops)) ->
@@ -453,23 +544,34 @@ Proof.
 Qed.
 
 (* the ghost `won` is exactly the history of the rows: a step changes a row iff it records the value left *)
-Lemma won_is_row_history : forall s o, Inv s ->
-  let s' := step byname keys nxt s o in
+Definition row_history (s s' : state) : Prop :=
   (won s' = won s /\ forall k, db s' k = db s k) \/
   (exists k d, db s k = Some d /\ won s' = (k, t_next d) :: won s /\ db s' k <> Some d /\
                forall k', k' <> k -> db s' k' = db s k').
+
+Lemma write_history : forall s i, Inv s -> row_history s (write drc urm s i).
 Proof.
-  intros s o HI. destruct o as [d|i|i k|i|i|i]; simpl; auto.
-  - destruct (adv_cases s i k HI) as [E|[(sn & _ & _ & E)|(sn & d & v & W & E)]]; rewrite E; auto.
-    right. exists k, d. destruct W as (Hp & Hs & Hk & En & Er & Hv). unfold win. simpl.
-    repeat split; auto.
-    + rewrite upd_eq. destruct v as [d'|]; [|discriminate]. destruct Hv as [_ ->].
-      intro X. inversion X as [Y]. pose proof (Hnxt_max k s d) as L.
-      assert (t_next (set_dyn d (nxt k (N.max (now s) (t_next d))) (dec (t_rem d))) = t_next d) as Z by (rewrite Y; reflexivity).
-      unfold set_dyn in Z. simpl in Z. lia.
-    + intros k' Hne. apply upd_neq. exact Hne.
-  - destruct (pend s i) as [[? ?]|]; auto.
-  - destruct (pend s i) as [[? ?]|]; auto.
+  intros s i HI. unfold row_history.
+  destruct (write_cases s i HI) as [E|[(e & _ & E)|(k & sn & nv & d & v & W & E)]]; rewrite E; auto.
+  right. exists k, d. destruct W as (Hse & Hp & Hst & Hdue & Hk & En & Er & (nw & Hnw & Hnv) & Hv). unfold wr_win. simpl.
+  repeat split; auto.
+  - rewrite upd_eq. destruct v as [d'|]; [|discriminate]. destruct Hv as [_ ->].
+    intro X. inversion X as [Y]. pose proof (Hnxt_max k nw d) as L.
+    assert (t_next (set_dyn d nv (dec (t_rem d))) = t_next d) as Z by (rewrite Y; reflexivity).
+    unfold set_dyn in Z. simpl in Z. lia.
+  - intros k' Hne. apply upd_neq. exact Hne.
+Qed.
+
+Lemma won_is_row_history : forall s o, Inv s -> row_history s (stp s o).
+Proof.
+  intros s o HI. destruct o as [d|i|i k|i k|i|i|i|i]; simpl; try (left; split; reflexivity).
+  - unfold adv. destruct (sel s i); [left; auto|].
+    pose proof (write_history _ i (select_inv s i k HI)) as H.
+    destruct (select_frame s i k) as (_ & Ed & Ew & _). unfold row_history in *. rewrite Ed, Ew in H. exact H.
+  - destruct (select_frame s i k) as (_ & Ed & Ew & _). left. rewrite Ed, Ew. auto.
+  - apply write_history; auto.
+  - destruct (pend s i) as [[? ?]|]; left; auto.
+  - destruct (pend s i) as [[? ?]|]; left; auto.
 Qed.
 
 Lemma count_key_le : forall k l w, NoDup l -> incl l w -> (count_key k l <= count_key k w)%nat.
@@ -522,28 +624,41 @@ Proof.
     destruct IC as (r & R1 & R2 & R3). destruct (B _ Hd) as [_ R]. rewrite R in R1. inversion R1. lia.
 Qed.
 
-Lemma step_forward : forall s o k d d', Inv s -> db s k = Some d -> db (step byname keys nxt s o) k = Some d' ->
-  d' = d \/ (t_next d' = nxt k (N.max (now s) (t_next d)) /\ t_next d < t_next d' /\ now s < t_next d' /\
+(* a row is left alone or moved forward along its pattern: next' = nxt (max nw next) for a clock value nw the
+   writer has seen (the value is computed before the database call; nw = now when the call is not interrupted) *)
+Definition moved (nw_max : N) (k : nat) (d d' : trig) : Prop :=
+  d' = d \/ (exists nw, nw <= nw_max /\ t_next d' = nxt k (N.max nw (t_next d)) /\ t_next d < t_next d' /\ nw < t_next d' /\
              t_rem d' = dec (t_rem d) /\ same_static d' d).
+
+Lemma write_forward : forall s i k d d', Inv s -> db s k = Some d -> db (write drc urm s i) k = Some d' ->
+  moved (now s) k d d'.
 Proof.
-  intros s o k d d' HI Hk H.
-  destruct (won_is_row_history s o HI) as [[_ A]|(k2 & d2 & A & _ & _ & B)].
-  - rewrite A in H. left. congruence.
-  - destruct (Nat.eq_dec k k2) as [->|Hne]; [|rewrite B in H by assumption; left; congruence].
-    destruct o as [?|?|i k|?|?|?]; simpl in H; try (left; congruence).
-    + destruct (adv_cases s i k HI) as [E|[(sn & _ & _ & E)|(sn & d3 & v & W & E)]]; rewrite E in H;
-        try (simpl in H; left; congruence).
-      destruct W as (Hp & Hs & Hk3 & En & Er & Hv). unfold win in H. simpl in H.
-      destruct (Nat.eq_dec k2 k) as [->|Hne]; [|rewrite upd_neq in H by assumption; left; congruence].
-      rewrite upd_eq in H. rewrite Hk in Hk3. inversion Hk3. subst d3.
-      destruct v as [dv|]; [|discriminate]. destruct Hv as [_ ->]. inversion H. subst d'. right.
-      unfold set_dyn. simpl. pose proof (Hnxt k (N.max (now s) (t_next d))).
-      repeat split; auto; try lia.
-    + destruct (pend s i) as [[? ?]|]; simpl in H; left; congruence.
-    + destruct (pend s i) as [[? ?]|]; simpl in H; left; congruence.
+  intros s i k d d' HI Hk H. unfold moved.
+  destruct (write_cases s i HI) as [E|[(e & _ & E)|(k2 & sn & nv & d3 & v & W & E)]]; rewrite E in H;
+    try (simpl in H; left; congruence).
+  destruct W as (Hse & Hp & Hst & Hdue & Hk3 & En & Er & (nw & Hnw & Hnv) & Hv). unfold wr_win in H. simpl in H.
+  destruct (Nat.eq_dec k k2) as [->|Hne]; [|rewrite upd_neq in H by assumption; left; congruence].
+  rewrite upd_eq in H. rewrite Hk in Hk3. inversion Hk3. subst d3.
+  destruct v as [dv|]; [|discriminate]. destruct Hv as [_ ->]. inversion H. subst d'. right.
+  exists nw. unfold set_dyn. simpl. pose proof (Hnxt k2 (N.max nw (t_next d))).
+  repeat split; auto; try lia.
 Qed.
 
-Lemma step_stays_removed : forall s o k, Inv s -> db s k = None -> db (step byname keys nxt s o) k = None.
+Lemma step_forward : forall s o k d d', Inv s -> db s k = Some d -> db (stp s o) k = Some d' ->
+  moved (now s) k d d'.
+Proof.
+  intros s o k d d' HI Hk H.
+  destruct o as [?|?|i k2|i k2|i|i|i|i]; simpl in H; try (left; congruence).
+  - unfold adv in H. destruct (sel s i); [left; congruence|].
+    destruct (select_frame s i k2) as (En & Ed & _).
+    rewrite <- En. apply write_forward with (i := i); [apply select_inv; exact HI| rewrite Ed; exact Hk | exact H].
+  - destruct (select_frame s i k2) as (_ & Ed & _). rewrite Ed in H. left. congruence.
+  - apply write_forward with (i := i); auto.
+  - destruct (pend s i) as [[? ?]|]; simpl in H; left; congruence.
+  - destruct (pend s i) as [[? ?]|]; simpl in H; left; congruence.
+Qed.
+
+Lemma step_stays_removed : forall s o k, Inv s -> db s k = None -> db (stp s o) k = None.
 Proof.
   intros s o k HI Hk.
   destruct (won_is_row_history s o HI) as [[_ A]|(k2 & d2 & A & _ & _ & B)].
@@ -551,21 +666,21 @@ Proof.
   - destruct (Nat.eq_dec k k2) as [->|Hne]; [congruence|]. rewrite B by assumption. exact Hk.
 Qed.
 
-Lemma run_stays_removed : forall ops s k, Inv s -> db s k = None -> db (run byname keys nxt s ops) k = None.
+Lemma run_stays_removed : forall ops s k, Inv s -> db s k = None -> db (rn s ops) k = None.
 Proof.
   induction ops as [|o ops IH]; intros s k HI Hn; simpl; auto.
   apply IH; [apply step_inv; auto | apply step_stays_removed; auto].
 Qed.
 
 Lemma run_forward : forall ops s k d, Inv s -> db s k = Some d ->
-  match db (run byname keys nxt s ops) k with Some d' => t_next d <= t_next d' | None => True end.
+  match db (rn s ops) k with Some d' => t_next d <= t_next d' | None => True end.
 Proof.
   induction ops as [|o ops IH]; intros s k d HI Hk; simpl.
   - rewrite Hk. lia.
-  - destruct (db (step byname keys nxt s o) k) as [d1|] eqn:H1.
+  - destruct (db (stp s o) k) as [d1|] eqn:H1.
     + pose proof (IH _ _ _ (step_inv s o HI) H1) as A.
-      destruct (db (run byname keys nxt (step byname keys nxt s o) ops) k); auto.
-      destruct (step_forward s o k d d1 HI Hk H1) as [->|(_ & L & _)]; lia.
+      destruct (db (rn (stp s o) ops) k); auto.
+      destruct (step_forward s o k d d1 HI Hk H1) as [->|(nw & _ & _ & L & _)]; lia.
     + rewrite run_stays_removed; auto. apply step_inv; auto.
 Qed.
 
@@ -639,7 +754,7 @@ Qed.
 Lemma once_per_occurrence_refuted_ambiguous_names :
   exists keys nxt t0 db0 ops,
     (forall k t, t < nxt k t) /\ covers keys db0 /\ Forall no_loss_op ops /\
-    ~ NoDup (map occ_of (starts (run true keys nxt (init t0 db0) ops))).
+    ~ NoDup (map occ_of (starts (run true true true keys nxt (init t0 db0) ops))).
 Proof.
   exists amb_keys, amb_nxt, 100019, (db_of amb_rows),
     [Read 0; Adv 0 0; Start 0; Adv 0 1; Start 0; Tick 60; Read 0; Adv 0 0; Start 0].
@@ -652,7 +767,7 @@ Qed.
 Lemma count_bound_refuted_ambiguous_names :
   exists keys nxt t0 db0 ops k d0,
     (forall k t, t < nxt k t) /\ covers keys db0 /\ db0 k = Some d0 /\ t_rem d0 = Some 1%Z /\
-    (2 <= count_key k (map occ_of (starts (run true keys nxt (init t0 db0) ops))))%nat.
+    (2 <= count_key k (map occ_of (starts (run true true true keys nxt (init t0 db0) ops))))%nat.
 Proof.
   exists amb_keys, amb_nxt, 100019, (db_of amb_rows),
     [Read 0; Adv 0 0; Start 0; Crash 0; Tick 60; Read 0; Adv 0 0; Adv 0 1; Start 0; Tick 60; Read 0; Adv 0 0; Adv 0 1; Start 0],
@@ -660,3 +775,58 @@ Proof.
   split; [exact amb_nxt_gt|]. split; [exact amb_covers|]. repeat split.
   vm_compute. lia.
 Qed.
+
+(* ---------------- the property fails when a lost write still reports 1 ----------------
+   Two processors have read the same due trigger and are both inside their database call (both have SELECTed the
+   row) before either writes.  Row addressed by id, names unambiguous (a single row). *)
+Definition race_nxt := amb_nxt.
+Definition race_keys : list nat := [0%nat].
+Definition race_ops : list op := [Read 0; Read 1; Sel 0 0; Sel 1 0; Wr 1; Start 1; Wr 0; Start 0].
+
+Lemma race_covers : forall t, covers race_keys (db_of [(0%nat, t)]).
+Proof. intros t k d. destruct k; simpl; intros; auto. discriminate. Qed.
+
+Lemma race_unamb : forall t, unamb (db_of [(0%nat, t)]).
+Proof. intros t k1 k2 a b. destruct k1, k2; simpl; intros; auto; discriminate. Qed.
+
+(* delete_cron_trigger does not return the row count of its DELETE (delete_reports_rowcount = false): the LAST
+   occurrence of a trigger (count 1 = also a first-execution-time-only trigger) is started by both processors *)
+Lemma last_occurrence_twice_when_delete_not_rowcount :
+  exists keys nxt t0 db0 ops k d0,
+    (forall k t, t < nxt k t) /\ covers keys db0 /\ unamb db0 /\ Forall no_loss_op ops /\
+    db0 k = Some d0 /\ t_rem d0 = Some 1%Z /\
+    let s := run false false true keys nxt (init t0 db0) ops in
+    ~ NoDup (map occ_of (starts s)) /\ (2 <= count_key k (map occ_of (starts s)))%nat /\ db s k = None.
+Proof.
+  exists race_keys, race_nxt, 100019, (db_of [(0%nat, mkTrig 0 0 false 1 100020 (Some 1%Z))]), race_ops,
+    0%nat, (mkTrig 0 0 false 1 100020 (Some 1%Z)).
+  split; [exact amb_nxt_gt|]. split; [apply race_covers|]. split; [apply race_unamb|]. split; [repeat constructor|].
+  split; [reflexivity|]. split; [reflexivity|]. vm_compute. split; [|split; [lia|reflexivity]].
+  intro H. inversion H as [|x l Hn Hr]. apply Hn. left. reflexivity.
+Qed.
+
+(* update_cron_trigger reports 1 although its conditional UPDATE matched no row (update_reports_match = false):
+   an occurrence that is not the last one is started by both processors, and a trigger with count 2 fires 3 times *)
+Lemma occurrence_twice_when_update_not_matched :
+  exists keys nxt t0 db0 ops k d0,
+    (forall k t, t < nxt k t) /\ covers keys db0 /\ unamb db0 /\ Forall no_loss_op ops /\
+    db0 k = Some d0 /\ t_rem d0 = Some 2%Z /\
+    let s := run false true false keys nxt (init t0 db0) ops in
+    ~ NoDup (map occ_of (starts s)) /\ (3 <= count_key k (map occ_of (starts s)))%nat /\ db s k = None.
+Proof.
+  exists race_keys, race_nxt, 100019, (db_of [(0%nat, mkTrig 0 0 false 1 100020 (Some 2%Z))]),
+    (race_ops ++ [Tick 60; Read 0; Adv 0 0; Start 0]),
+    0%nat, (mkTrig 0 0 false 1 100020 (Some 2%Z)).
+  split; [exact amb_nxt_gt|]. split; [apply race_covers|]. split; [apply race_unamb|]. split; [repeat constructor|].
+  split; [reflexivity|]. split; [reflexivity|]. vm_compute. split; [|split; [lia|reflexivity]].
+  intro H. inversion H as [|x l Hn Hr]. inversion Hr as [|x2 l2 Hn2 Hr2]. apply Hn2. left. reflexivity.
+Qed.
+
+(* the same two schedules are harmless when the writes report what they did *)
+Example race_schedules_ok_when_reported :
+  map occ_of (starts (run false true true race_keys race_nxt
+                        (init 100019 (db_of [(0%nat, mkTrig 0 0 false 1 100020 (Some 1%Z))])) race_ops)) = [(0%nat, 100020)] /\
+  map occ_of (starts (run false true true race_keys race_nxt
+                        (init 100019 (db_of [(0%nat, mkTrig 0 0 false 1 100020 (Some 2%Z))]))
+                        (race_ops ++ [Tick 60; Read 0; Adv 0 0; Start 0]))) = [(0%nat, 100080); (0%nat, 100020)].
+Proof. vm_compute. split; reflexivity. Qed.
